@@ -300,6 +300,9 @@ def get_arg_ctx_ast(
         else:
             if n in kwargs:
                 h = process_arg(kwargs[n])
+            elif None in kwargs:
+                # The call passes a ** mapping (its keyword has no name): it may bind this parameter
+                h = None
             elif p.default != Parameter.empty:
                 # Argument is not provided but it has a default value
                 # Use the default argument as an input
